@@ -30,7 +30,9 @@
 EXTENDS Integers, Sequences
 
 SrvCerts == {"trusted", "otherCA", "selfSigned", "wrongSAN", "noSAN", "hostSAN"}
-SrvNames == {"match", "unset", "mismatch"}
+SrvNames == {"match", "unset", "mismatch", "ip"}
+\* cell.chain (optional): further certificates the server appends to its leaf ("plusTrusted": a genuine, trusted
+\* collector certificate).  They never change the verdict: the LEAF is what must chain, be valid and carry the name.
 CliCerts == {"none", "trusted", "otherCA", "expired"}
 
 Chains(c)     == c \in {"trusted", "wrongSAN", "noSAN", "hostSAN"}
@@ -49,6 +51,7 @@ Contacted(cell) == IF "addr" \notin DOMAIN cell THEN "127.0.0.1"
                           [] OTHER              -> "127.0.0.1"
 WantedName(cell) == CASE cell.srvName = "match"    -> "collector.verif"
                       [] cell.srvName = "mismatch" -> "other.verif"
+                      [] cell.srvName = "ip"       -> "127.0.0.1"       \* ServerName given as an IP literal
                       [] OTHER                     -> Contacted(cell)
 NameOK(cell) == WantedName(cell) \in SANs(cell.srvCert)
 
